@@ -10,6 +10,7 @@ import (
 	"context"
 	"crypto/md5"
 	"encoding/json"
+	"flag"
 	"fmt"
 	"io/ioutil"
 	"net/http"
@@ -19,6 +20,7 @@ import (
 	"regexp"
 	"runtime"
 	"sort"
+	"strconv"
 	"strings"
 	"sync"
 	"sync/atomic"
@@ -311,6 +313,18 @@ func vkPick(t *rapid.T, label string, n int) int {
 }
 
 func vkPickStr(t *rapid.T, label string, xs []string) string { return xs[vkPick(t, label, len(xs))] }
+
+var vkShardFlag = flag.Int("verif.shard", 0, "index of this shard (set by the driver for units with shard_arg)")
+
+// vkShard returns (shard index, number of shards) for enumerations that are
+// split across the driver's processes.
+func vkShard() (int, int) {
+	n, _ := strconv.Atoi(os.Getenv("VERIF_NSHARDS"))
+	if n < 1 {
+		n = 1
+	}
+	return *vkShardFlag % n, n
+}
 
 var vkScratchSeq int64
 
